@@ -63,7 +63,7 @@ func runC10(e *core.Env) {
 			s = ghost
 		}
 		// annotations: some, an empty object, or none at all
-		g.ArtifactAnnotMode = []int{0, 0, 1, 2}[e.Choose("gen", 4, "annot")]
+		g.ArtifactAnnotMode = []int{0, 0, 1, 2, 3}[e.Choose("gen", 5, "annot")]
 		a := g.Artifact(s, c10Types[e.Choose("gen", 3, "type")])
 		for _, o := range arts {
 			if o.Digest == a.Digest {
@@ -81,10 +81,18 @@ func runC10(e *core.Env) {
 	arts = append(arts, g.Artifact(arts[0], c10Types[e.Choose("gen", 3, "type")])) // referrer of a referrer
 	subjects := []string{subj0.Digest, ghost.Digest, arts[0].Digest}
 	live := map[string]bool{} // digest -> stored
-	truth := func(subject, atype string) []string {
+	// filters: "" none, an artifact type, "ann-key" (the annotation org.example.serial is set, any value),
+	// "ann-value" (it has the value the first artifact carries)
+	serialOf0 := arts[0].Annot["org.example.serial"]
+	truth := func(subject, filt string) []string {
 		var out []string
 		for _, a := range arts {
-			if live[a.Digest] && a.Subject == subject && (atype == "" || a.ArtType == atype) {
+			if !live[a.Digest] || a.Subject != subject {
+				continue
+			}
+			v, has := a.Annot["org.example.serial"]
+			switch {
+			case filt == "", filt == "ann-key" && has, filt == "ann-value" && has && v == serialOf0 && serialOf0 != "", filt == a.ArtType:
 				out = append(out, a.Digest)
 			}
 		}
@@ -104,9 +112,18 @@ func runC10(e *core.Env) {
 			}
 		}
 		for _, s := range subjects {
-			for _, at := range []string{"", c10Types[0]} {
+			for _, at := range []string{"", c10Types[0], "ann-key", "ann-value"} {
 				var opts []scheme.ReferrerOpts
-				if at != "" {
+				switch at {
+				case "":
+				case "ann-key":
+					opts = append(opts, scheme.WithReferrerMatchOpt(descriptor.MatchOpt{Annotations: map[string]string{"org.example.serial": ""}}))
+				case "ann-value":
+					if serialOf0 == "" {
+						continue
+					}
+					opts = append(opts, scheme.WithReferrerMatchOpt(descriptor.MatchOpt{Annotations: map[string]string{"org.example.serial": serialOf0}}))
+				default:
 					opts = append(opts, scheme.WithReferrerMatchOpt(descriptor.MatchOpt{ArtifactType: at}))
 				}
 				rl, err := rc.ReferrerList(ctx, mustRef(base+"@"+s), opts...)
